@@ -8,7 +8,8 @@ from ..runner import Result, Violation
 ID = "C14"
 LEVEL = "exploration"
 LEVEL_TEXT = (
-    "Random search over valid reconciliations (as C13) with node sizes in [1,100] and every numeric drawing parameter perturbed within positive "
+    "All valid reconciliations of every small input drawn from shared tree objects, mirror / re-sized variants of the committed witnesses, and "
+    "random search over valid reconciliations (as C13; a third on species trees of 6-10 leaves) with node sizes in [1,100] and every numeric drawing parameter perturbed within positive "
     "values: finite coordinates, sibling species boxes disjoint and inside the parent box, pairwise disjoint trunks, every anchor the renderer "
     "dereferences present (rendering must not raise), horizontal layout == mirror image of the vertical layout computed with every node's width and "
     "height exchanged, and two computations on freshly parsed equal inputs give equal layouts."
